@@ -142,6 +142,8 @@ var Mutants = []Mutant{
 	{ID: "envelope-without-payload", Props: []string{"C20"}, Rule: "R-CRYPTO", File: "learn/pkg/learn/encrypt.go", Find: "\taesCiphertext := ciphertext[rsaLen+3:]\n", Replace: "\taesCiphertext := ciphertext[rsaLen+3:]\n\tif len(aesCiphertext) == 0 {\n\t\treturn []byte{}, nil\n\t}\n", Expect: "hybridDecrypt#success-through-Open", Describe: "a sealed value cut off behind the wrapped key unseals to the empty answer with any key"},
 	{ID: "constants-pooled-by-text", Props: []string{"C16", "C17"}, Rule: "R-CONSTPOOL", File: "pkg/bytecode/compiler.go", Find: "\tc.constants = append(c.constants, obj)\n\treturn len(c.constants) - 1", Replace: "\tfor i, k := range c.constants {\n\t\tif k.String() == obj.String() {\n\t\t\treturn i\n\t\t}\n\t}\n\tc.constants = append(c.constants, obj)\n\treturn len(c.constants) - 1", Expect: "addConstant#index-denotes-argument", Describe: "the number 1 and the string \"1\" share a constant"},
 	{ID: "test-message-always-a-format", Props: []string{"C13"}, Rule: "R-BUILTINSIG", File: "pkg/evaluator/builtin.go", Find: "\tif len(args) > 3 {\n\t\tmsg = sprintf(msg, args[3:])\n\t}", Replace: "\tmsg = sprintf(msg, args[3:])", Expect: "message-is-a-format-only-with-operands", Describe: "`test 1 2 \"100% full\"` reports 100%!f(MISSING)ull"},
+	{ID: "isident-through-the-lexer", Props: []string{"C13"}, Rule: "R-IDENTKEY", File: "pkg/lexer/lexer.go", Find: "\tif s == \"\" {\n\t\treturn false\n\t}\n\tfor i, r := range s {\n\t\tif !isLetter(r) && (i == 0 || !isDigit(r)) {\n\t\t\treturn false\n\t\t}\n\t}\n\treturn true", Replace: "\ttok := New(s).Next()\n\treturn tok.Type == IDENT && tok.Literal == s", Expect: "IsIdent#keyword-safe", Describe: "repr quotes keyword keys"},
+	{ID: "blank-line-after-first-of-run", Props: []string{"C07"}, Rule: "R-BLANKBEFORE", File: "pkg/parser/multiline.go", Find: "\t\t\tbeforeCommentIdx := accums[i+1].idx - 1\n\t\t\tindices[beforeCommentIdx] = true", Replace: "\t\t\tindices[accum.idx] = true", Expect: "nlAfter#marked-index", Describe: "the blank line before a func's doc comment is inserted after the first statement of the preceding run"},
 	// C08
 	{ID: "printf-composite-as-pointer", Props: []string{"C08"}, Rule: "R-ADDRPRINT", File: "pkg/evaluator/value.go", Find: "\t\treturn unwrapBasicvalue(v.V)\n\tdefault:\n\t\treturn v.String()\n\t}\n", Replace: "\t\treturn unwrapBasicvalue(v.V)\n\t}\n\treturn val\n", Expect: "sprintf#fmt-dynamic-args", Describe: "printf \"%d\" [1 2] prints a heap address"},
 	{ID: "mapstring-go-order", Props: []string{"C08", "C12"}, Rule: "R-MAPRANGE", File: "pkg/evaluator/value.go", Find: "func (m *mapVal) String() string {\n\tpairs := make([]string, 0, len(m.Pairs))\n\tfor _, key := range *m.Order {\n\t\tpairs = append(pairs, key+\":\"+m.Pairs[key].String())", Replace: "func (m *mapVal) String() string {\n\tpairs := make([]string, 0, len(m.Pairs))\n\tfor key, v := range m.Pairs {\n\t\tpairs = append(pairs, key+\":\"+v.String())", Expect: "(*mapVal).String#maprange", Describe: "maps print in Go map order"},
